@@ -48,6 +48,8 @@ def run(ctx):
     from . import c04
     c04.r04_4(ctx, rep, roles)
     ctx.report.rules[-1].id = "R02.6(R04.4)"
+    from .. import identity
+    identity.check(ctx, rep, "C02", "R02.7", ["vv-clone"])
 
 
 def loop_body(row, fid):
